@@ -227,8 +227,10 @@ class Ctx:
                 return [(batch, run_batch(batch))]
             except MachineryError as ex:
                 msg = str(ex)
-                if "Parsing or semantic analysis failed" in msg or "timed out" in msg or len(batch) == 1 and getattr(one, "_depth", 0) == 0 and len(cases) == 1:
-                    raise
+                import re as _re
+                killed = _re.search(r"\(rc=-\d+\)", msg) is not None or "OutOfMemoryError" in msg or "Cannot allocate memory" in msg
+                if "Parsing or semantic analysis failed" in msg or "timed out" in msg or killed or (len(batch) == 1 and len(cases) == 1):
+                    raise                     # the validator itself failed (killed, out of memory, timed out, does not parse): exit 2, never a verdict
                 if len(batch) == 1:
                     why = next((l for l in msg.splitlines() if l.startswith("Error:") or "Attempted" in l or "exception" in l), msg[:200])
                     return [(batch, _Unevaluable(batch[0], why[:300]))]
